@@ -113,6 +113,21 @@ def model_multispill():
     return {'cells': cells, 'arrays': arrays, 'names': {}, 'sheets': [[M.B, 'S']]}
 
 
+def model_colskip():
+    """two non-adjacent whole columns read in full (A:A, C:C) and a rectangle that has them as its outer columns; the inner column is
+    referenced by nothing else and holds formulas with precedents of their own."""
+    K, cell, rng, op, fn, num, const = M.K, M.cell, M.rng, M.op, M.fn, M.num, M.const
+    cells = {K('S', 'A%d' % r): const(('n', float(r))) for r in range(1, 6)}
+    cells.update({K('S', 'C%d' % r): const(('n', float(100 * r))) for r in range(1, 6)})
+    cells.update({K('S', 'B2'): const(('n', 7.0)), K('S', 'B4'): const(('n', 9.0)), K('S', 'G1'): const(('n', 20.0)),
+                  K('S', 'B1'): op('*', cell('S', 'G1'), num(2)), K('S', 'B3'): op('+', cell('S', 'B1'), cell('T', 'A1')), K('T', 'A1'): const(('n', 1.0)),
+                  # (readers of the rectangle sort before AND after the readers of the whole columns: the completion work-list is a stack)
+                  K('S', 'E1'): fn('SUM', rng('S', 'A1:C5')), K('S', 'E2'): fn('SUM', ['col', M.B, 'S', 'A']), K('S', 'E3'): fn('SUM', ['col', M.B, 'S', 'C']),
+                  K('S', 'E4'): fn('MAX', rng('S', 'A1:C5'))})
+    # (whole-column models take 2.6 GB and 10 s each: only the four readers are candidate outputs)
+    return {'cells': cells, 'arrays': {}, 'names': {}, 'sheets': [[M.B, 'S'], [M.B, 'T']], 'only_outputs': ['E1', 'E2', 'E3', 'E4']}
+
+
 def model_longfloat():
     """constants stored with more than 15 significant digits (0.1+0.2, 0.7+0.1 pasted as values), read by exact-match consumers;
     the partial model must load them exactly as the full model does (no reference verdict: only partial vs full)."""
@@ -162,7 +177,7 @@ def model_dangling(H=M.B, C=M.C):
     return {'cells': cells, 'arrays': {}, 'names': {}, 'sheets': [[H, 'Main'], [C, 'Alpha'], [C, 'Zeta']], 'strict_sheets': True}
 
 
-FIXED = dict(M.MODELS, longfloat=model_longfloat, linkhop=model_linkhop, multispill=model_multispill, spillpast=model_spillpast, dangling=model_dangling, dangling2=lambda: model_dangling(M.C, M.B), anchor=model_anchor, col=model_col, samesheet=model_samesheet, samesheet2=lambda: model_samesheet(M.C, M.B),
+FIXED = dict(M.MODELS, colskip=model_colskip, longfloat=model_longfloat, linkhop=model_linkhop, multispill=model_multispill, spillpast=model_spillpast, dangling=model_dangling, dangling2=lambda: model_dangling(M.C, M.B), anchor=model_anchor, col=model_col, samesheet=model_samesheet, samesheet2=lambda: model_samesheet(M.C, M.B),
              longspill=model_longspill, quoted=model_quoted)
 
 
@@ -174,7 +189,7 @@ def spec_of(wb):
 
 def candidates(spec):
     from xl.wbspec import lib_id
-    out = [(k, lib_id(*k.split('|'))) for k, c in spec['cells'].items() if c[0] != 'const']
+    out = [(k, lib_id(*k.split('|'))) for k, c in spec['cells'].items() if c[0] != 'const' and (not spec.get('only_outputs') or k.split('|')[2] in spec['only_outputs'])]
     for ak in spec.get('arrays', {}):
         out.append((ak, lib_id(*ak.split('|'))))
     return out[:8]
@@ -262,5 +277,9 @@ def run_case(case):
 
 
 def run(ctx):
-    ctx.explore(run_case, cases(ctx.tier), chunksize=4, label='output_subsets')
+    # workbooks with whole-column references build 1048576-row arrays (up to 6 GB per case): those run 4 at a time
+    heavy = lambda c: c[1][0] == 'model' and c[1][1] in ('col', 'colskip')
+    allc = list(cases(ctx.tier))
+    ctx.explore(run_case, [c for c in allc if not heavy(c)], chunksize=4, label='output_subsets')
+    ctx.explore(run_case, [c for c in allc if heavy(c)], chunksize=1, label='output_subsets_whole_columns', nproc=4)
     return {'workbooks': len(wbs(ctx.tier))}
